@@ -93,13 +93,23 @@ type worker struct {
 	state  *os.ProcessState
 	errLog string
 	mu     sync.Mutex
+	hc     *http.Client // connections to the current process
 }
 
-var workerHTTP = &http.Client{
-	Timeout:       90 * time.Second,
-	CheckRedirect: func(req *http.Request, via []*http.Request) error { return http.ErrUseLastResponse },
-	Transport:     &http.Transport{DisableKeepAlives: true},
+// newHTTP returns a client with its own connection pool. Connections are
+// kept alive and re-used: every short-lived connection leaves a TIME_WAIT
+// socket on an ephemeral port for a minute, and such a socket makes bind()
+// fail for any server (a restarting meta node, another check on this
+// machine) that was promised that port.
+func newHTTP(timeout time.Duration) *http.Client {
+	return &http.Client{
+		Timeout:       timeout,
+		CheckRedirect: func(req *http.Request, via []*http.Request) error { return http.ErrUseLastResponse },
+		Transport:     &http.Transport{MaxIdleConnsPerHost: 2, IdleConnTimeout: 30 * time.Second},
+	}
 }
+
+var sharedHTTP = newHTTP(60 * time.Second)
 
 func freeAddr() string {
 	ln, err := net.Listen("tcp", "127.0.0.1:0")
@@ -128,11 +138,11 @@ const (
 func (w *worker) start(wait time.Duration) startResult {
 	for try := 0; ; try++ {
 		res := w.start1(wait)
-		if res == startDied && try < 4 {
-			// the worker's fixed port may momentarily be the source port of
-			// some other connection on this machine
+		if res == startDied && try < 40 {
+			// the worker's fixed port may be held by a TIME_WAIT socket of some
+			// other connection on this machine (up to a minute)
 			if b, _ := os.ReadFile(w.errLog); strings.Contains(string(b), "address already in use") {
-				time.Sleep(500 * time.Millisecond)
+				time.Sleep(2 * time.Second)
 				continue
 			}
 		}
@@ -142,6 +152,10 @@ func (w *worker) start(wait time.Duration) startResult {
 
 func (w *worker) start1(wait time.Duration) startResult {
 	w.starts++
+	if w.hc != nil {
+		w.hc.CloseIdleConnections()
+	}
+	w.hc = newHTTP(90 * time.Second)
 	w.errLog = filepath.Join(w.dir, fmt.Sprintf("worker.%d.stderr", w.starts))
 	ef, err := os.Create(w.errLog)
 	if err != nil {
@@ -217,6 +231,9 @@ func (w *worker) kill() {
 	w.cmd.Process.Kill()
 	w.stdin.Close()
 	<-w.exited
+	if w.hc != nil {
+		w.hc.CloseIdleConnections()
+	}
 }
 
 // dump makes a process that is alive but not answering print all its
@@ -296,7 +313,7 @@ func (w *worker) url(path string) string { return "http://" + w.httpAddr + path 
 
 // post sends one body to /execute.
 func (w *worker) post(body []byte) (status int, resp []byte, err error) {
-	rs, err := workerHTTP.Post(w.url("/execute"), "application/octet-stream", bytes.NewReader(body))
+	rs, err := w.hc.Post(w.url("/execute"), "application/octet-stream", bytes.NewReader(body))
 	if err != nil {
 		return 0, nil, err
 	}
@@ -308,7 +325,7 @@ func (w *worker) post(body []byte) (status int, resp []byte, err error) {
 // ping asks the worker for its leader; ok when it answers 200.
 func (w *worker) ping() bool {
 	for try := 0; try < 3; try++ {
-		rs, err := workerHTTP.Get(w.url("/ping"))
+		rs, err := w.hc.Get(w.url("/ping"))
 		if err == nil {
 			io.Copy(io.Discard, rs.Body)
 			rs.Body.Close()
@@ -326,10 +343,8 @@ func (w *worker) ping() bool {
 }
 
 // fetchData reads a meta node's current metadata from its snapshot endpoint.
-func fetchData(httpAddr string, timeout time.Duration) (*meta.Data, error) {
-	c := *workerHTTP
-	c.Timeout = timeout
-	rs, err := c.Get("http://" + httpAddr + "/?index=0")
+func fetchData(hc *http.Client, httpAddr string) (*meta.Data, error) {
+	rs, err := hc.Get("http://" + httpAddr + "/?index=0")
 	if err != nil {
 		return nil, err
 	}
@@ -348,7 +363,7 @@ func fetchData(httpAddr string, timeout time.Duration) (*meta.Data, error) {
 	return d, nil
 }
 
-func (w *worker) data() (*meta.Data, error) { return fetchData(w.httpAddr, 60*time.Second) }
+func (w *worker) data() (*meta.Data, error) { return fetchData(w.hc, w.httpAddr) }
 
 // execResponse decodes the Response message of /execute (OK=1, Error=2, Index=3).
 func execResponse(b []byte) (errMsg string, index uint64, ok bool) {
